@@ -498,4 +498,61 @@ theorem rounding_roundBits (p : Nat) (hp : 1 ≤ p) : Rounding (2 ^ p) (roundBit
   idem := roundBits_idem p hp
   mul_lt := roundBits_mul_lt p hp
 
+/-! ## random_shift in double precision: the amounts are bounded, every request the layer can make is legal
+(audit round E) -/
+
+/-- the bound for the double-precision amount, with no hypothesis about rounding -/
+theorem shiftAmountF64_bound (prop : Rat) (len : Nat) (u : Rat) (hp : 0 ≤ prop)
+    (hB : prop * (len : Rat) ≤ ((2 ^ 53 : Nat) : Rat)) (hu0 : 0 ≤ u) (hu1 : u < 1)
+    (hu : roundBits 24 u = u) :
+    ((shiftAmountF64 prop len u : Nat) : Rat) ≤ prop * (len : Rat)
+      ∧ (0 < prop * (len : Rat) → ((shiftAmountF64 prop len u : Nat) : Rat) < prop * (len : Rat)) :=
+  shiftAmountR_le (2 ^ 53) (roundBits 53) (rounding_roundBits 53 (by norm_num)) prop len u hp hB
+    hu0 hu1 (roundBits_repr_mono 24 53 (by norm_num) (by norm_num) u hu)
+
+/-- with a proportion `≤ 1` and a non-empty sequence the double-precision amount is `< len`: the reflect
+request `random_shift` makes is legal -/
+theorem shiftAmountF64_lt_len (prop : Rat) (len : Nat) (u : Rat) (hp : 0 ≤ prop) (hp1 : prop ≤ 1)
+    (hB : prop * (len : Rat) ≤ ((2 ^ 53 : Nat) : Rat))
+    (hlen : 1 ≤ len) (hu0 : 0 ≤ u) (hu1 : u < 1) (hu : roundBits 24 u = u) :
+    shiftAmountF64 prop len u < len := by
+  have hl0 : (0 : Rat) ≤ (len : Rat) := Nat.cast_nonneg len
+  have hle : prop * (len : Rat) ≤ (len : Rat) := by nlinarith
+  obtain ⟨h1, h2⟩ := shiftAmountF64_bound prop len u hp hB hu0 hu1 hu
+  have : ((shiftAmountF64 prop len u : Nat) : Rat) < (len : Rat) := by
+    by_cases hpos : 0 < prop * (len : Rat)
+    · exact lt_of_lt_of_le (h2 hpos) hle
+    · have hz : prop * (len : Rat) = 0 := le_antisymm (not_lt.1 hpos) (mul_nonneg hp hl0)
+      rw [hz] at h1
+      have hl1 : (1 : Rat) ≤ (len : Rat) := by exact_mod_cast hlen
+      linarith
+  exact_mod_cast this
+
+open PdtVerif.PadSlice in
+/-- What the repaired `random_shift` may be asked (one row): rectangular input of time dimension `T`,
+`len ≤ T`, `prop * len ≤ 2^53` on both sides, both draws float32 numbers in `[0, 1)` (what `torch.rand`
+returns); replicate mode: a non-empty sequence; reflect mode: a non-empty sequence and proportions `≤ 1`
+(what `RandomShift.__init__` enforces). NOTHING is assumed about the pad amounts. -/
+def ShiftRow.Ok64 {α : Type} (mode : Mode) (T : Nat) (p0 p1 : Rat) (s : ShiftRow α) : Prop :=
+  s.x.length = T ∧ s.len ≤ T
+  ∧ p0 * (s.len : Rat) ≤ ((2 ^ 53 : Nat) : Rat) ∧ p1 * (s.len : Rat) ≤ ((2 ^ 53 : Nat) : Rat)
+  ∧ (0 ≤ s.u0 ∧ s.u0 < 1 ∧ roundBits 24 s.u0 = s.u0) ∧ (0 ≤ s.u1 ∧ s.u1 < 1 ∧ roundBits 24 s.u1 = s.u1)
+  ∧ (mode = .replicate → 1 ≤ s.len) ∧ (mode = .reflect → 1 ≤ s.len ∧ p0 ≤ 1 ∧ p1 ≤ 1)
+
+open PdtVerif.PadSlice in
+/-- … and then the `pad_variable` request the layer builds from the double-precision amounts is legal -/
+theorem ShiftRow.Ok64.legal {α : Type} {mode : Mode} {T : Nat} {p0 p1 : Rat} {s : ShiftRow α}
+    (hp0 : 0 ≤ p0) (hp1 : 0 ≤ p1) (h : s.Ok64 mode T p0 p1) :
+    (s.toPadWith shiftAmountF64 p0 p1).Legal mode T := by
+  obtain ⟨hx, hlen, hB0, hB1, ⟨hu00, hu01, hu0⟩, ⟨hu10, hu11, hu1⟩, hrep, hrefl⟩ := h
+  refine ⟨hx, hlen, ?_⟩
+  cases mode with
+  | constant => rfl
+  | replicate => exact decide_eq_true (hrep rfl)
+  | reflect =>
+    obtain ⟨h1, hq0, hq1⟩ := hrefl rfl
+    simp only [ShiftRow.toPadWith, legalPad, Bool.and_eq_true]
+    exact ⟨decide_eq_true (shiftAmountF64_lt_len p0 s.len s.u0 hp0 hq0 hB0 h1 hu00 hu01 hu0),
+      decide_eq_true (shiftAmountF64_lt_len p1 s.len s.u1 hp1 hq1 hB1 h1 hu10 hu11 hu1)⟩
+
 end PdtVerif.PadChunk
